@@ -1,10 +1,12 @@
 /- C09 line-protocol driver: prints `model <TAB> spec` for each case line.
 
-   new kind=ss|fs|fi cap=N cmp=less|greater|tless|tgreater ctor=range|su init=[..] other=[..]
-   insert k=K [via=insert|emplace|hint]      insert_range ks=[..]
+   new kind=ss|fs|fi cap=N cmp=less|greater|tless|tgreater|hless ctor=range|cont|su|sur init=[..] other=[..]
+   insert k=K [via=insert|move|emplace]   insert k=K via=hint pos=P      insert_range ks=[..]
    erase_key k=K   erase_at pos=P   erase_range first=F last=L   clear   swap   extract   replace c=[..]
    find|contains|count k=K [het=1]   lower_bound|upper_bound|equal_range k=K [het=1]   riter
-   mset cmp=.. c=[..]                          (flat_multiset construction, stateless)
+   mset kind=fs|fi cmp=.. c=[..]               (flat_multiset construction, stateless; containers of capacity 8)
+   `het=1` selects the `K const&` overload: the key is a value of another type, compared through its integer
+   payload (`Het` instance `ek x k = lt x k`, `ke k x = lt k x`).
    every answer is followed by the state of the current set: ` n=<size> d=[..]`                     -/
 import Tetl.Proto
 import Tetl.C09.Model
@@ -21,45 +23,52 @@ structure Live where
 
 abbrev DState := Option Live
 
+/-- `hless` orders by `k / 2` (a strict weak order whose equivalence is coarser than `==`) -/
 def cmpOf : String → Option (Nat → Nat → Bool)
   | "less" | "tless" => some (fun a b => decide (a < b))
   | "greater" | "tgreater" => some (fun a b => decide (a > b))
+  | "hless" => some (fun a b => decide (a / 2 < b / 2))
   | _ => none
 
 def kindOf : String → Option Kind
   | "ss" => some .ss | "fs" => some .fs | "fi" => some .fi | _ => none
 
-def fmtIns (hint : Bool) : InsRes → String
-  | .inserted p => if hint then s!"it({p})" else s!"ins({p},1)"
-  | .exists_ p => if hint then s!"it({p})" else s!"ins({p},0)"
+def ctorOf : String → Option Ctor
+  | "range" => some .range | "cont" => some .cont | "su" => some .su | "sur" => some .sur | _ => none
+
+def lkOf : String → Option Lk
+  | "find" => some .find | "contains" => some .contains | "count" => some .count
+  | "lower_bound" => some .lowerBound | "upper_bound" => some .upperBound | "equal_range" => some .equalRange
+  | _ => none
+
+/-- the heterogeneous key of the harness (`HKey{v}`) compares through its payload -/
+def hetOf (lt : Nat → Nat → Bool) : Het Nat Nat := { ek := fun x k => lt x k, ke := fun k x => lt k x }
+
+def fmtIns : InsRes → String
+  | .inserted p => s!"ins({p},1)"
+  | .exists_ p => s!"ins({p},0)"
   | .full => "full"
 
-def fmtOut (hint : Bool) : Out Nat → String
-  | .ins r => fmtIns hint r
+/-- `hint`: the operation was `insert(hint, x)`, whose iterator result is printed as `it(p)` / `full` (= `end()`) -/
+def fmtOut (hint : Bool) (size : Nat) : Out Nat → String
+  | .ins r => fmtIns r
   | .unit => "ok"
-  | .num n => toString n
+  | .num n => if hint then (if n == size then "full" else s!"it({n})") else toString n
   | .flag b => fmtBool b
   | .pair a b => s!"{a}:{b}"
   | .elems l => fmtNatList l
 
 def fmtSt (l : List Nat) : String := s!" n={l.length} d={fmtNatList l}"
 
-def build (kind : Kind) (lt : Nat → Nat → Bool) (cap : Nat) (ctor : String) (init : List Nat) :
-    Except Err (List Nat) :=
-  if ctor == "su" then
-    (if init.length > cap then .error (.pre "container fits") else .ok init)
-  else match kind with
-    | .ss => ssInsertRange lt cap [] init
-    | .fs => fsInsertRange lt cap [] init
-    | .fi => fiInsertRange lt cap [] init
-
-def specBuild (lt : Nat → Nat → Bool) (cap : Nat) (ctor : String) (init : List Nat) : List Nat :=
-  if ctor == "su" then init else Spec.insertRange lt cap [] init
-
-def parseOp (l : Line) : Option (Op Nat × Bool) :=
+def parseOp (l : Line) : Option (Op Nat Nat × Bool) :=
   let het := (l.nat? "het").getD 0 == 1
   match l.op with
-  | "insert" => (l.nat? "k").map fun k => (.insert k, (l.str? "via").getD "insert" == "hint")
+  | "insert" =>
+    if (l.str? "via").getD "insert" == "hint" then
+      match l.nat? "k", l.nat? "pos" with
+      | some k, some p => some (.insertHint p k, true)
+      | _, _ => none
+    else (l.nat? "k").map fun k => (.insert k, false)
   | "insert_range" => (l.natList? "ks").map fun ks => (.insertRange ks, false)
   | "erase_key" => (l.nat? "k").map fun k => (.eraseKey k, false)
   | "erase_at" => (l.nat? "pos").map fun p => (.eraseAt p, false)
@@ -71,43 +80,37 @@ def parseOp (l : Line) : Option (Op Nat × Bool) :=
   | "swap" => some (.swap, false)
   | "extract" => some (.extract, false)
   | "replace" => (l.natList? "c").map fun c => (.replace c, false)
-  | "find" => (l.nat? "k").map fun k => (.find k het, false)
-  | "contains" => (l.nat? "k").map fun k => (.contains k het, false)
-  | "count" => (l.nat? "k").map fun k => (.count k het, false)
-  | "lower_bound" => (l.nat? "k").map fun k => (.lowerBound k, false)
-  | "upper_bound" => (l.nat? "k").map fun k => (.upperBound k, false)
-  | "equal_range" => (l.nat? "k").map fun k => (.equalRange k, false)
-  | _ => none
+  | "riter" => some (.riter, false)
+  | op =>
+    match lkOf op, l.nat? "k" with
+    | some w, some k => some (if het then .hlookup w k else .lookup w k, false)
+    | _, _ => none
 
 def step (st : DState) (l : Line) : DState × String :=
   let bad := (st, "bad-op\tbad-op")
   match l.op with
   | "new" =>
-    match (l.str? "kind").bind kindOf, (l.str? "cmp").bind cmpOf, l.nat? "cap" with
-    | some kind, some lt, some cap =>
-      let ctor := (l.str? "ctor").getD "range"
+    match (l.str? "kind").bind kindOf, (l.str? "cmp").bind cmpOf, l.nat? "cap", ctorOf ((l.str? "ctor").getD "range") with
+    | some kind, some lt, some cap, some ctor =>
       let init := (l.natList? "init").getD []
       let other := (l.natList? "other").getD []
       let m : Except Err (St Nat) := do
-        let c ← build kind lt cap ctor init
-        let o ← build kind lt cap "range" other
+        let c ← construct kind lt cap ctor init
+        let o ← construct kind lt cap .range other
         pure { cur := c, other := o }
-      let s : St Nat := { cur := specBuild lt cap ctor init, other := specBuild lt cap "range" other }
+      let s : St Nat := { cur := Spec.construct lt cap ctor init, other := Spec.construct lt cap .range other }
       let ms := match m with | .ok x => "ok" ++ fmtSt x.cur | .error e => e.fmt
       (some { kind := kind, lt := lt, cap := cap, model := m, spec := s }, ms ++ "\t" ++ "ok" ++ fmtSt s.cur)
-    | _, _, _ => bad
+    | _, _, _, _ => bad
   | "mset" =>
     match (l.str? "cmp").bind cmpOf, l.natList? "c" with
     | some lt, some c =>
-      let m := match gnomeSort lt c with | .ok x => fmtNatList x | .error e => e.fmt
+      let r := if (l.str? "kind").getD "fs" == "fi" then
+          (match miniCtor 8 c with | .ok x => Tetl.C06.sort lt x 0 x.length | .error e => .error e)
+        else msetCtor lt 8 c
+      let m := match r with | .ok x => fmtNatList x | .error e => e.fmt
       (st, m ++ "\t" ++ fmtNatList (Spec.multiset lt c))
     | _, _ => bad
-  | "riter" =>
-    match st with
-    | some lv =>
-      let m := match lv.model with | .ok x => fmtNatList x.cur.reverse ++ fmtSt x.cur | .error e => e.fmt
-      (st, m ++ "\t" ++ fmtNatList lv.spec.cur.reverse ++ fmtSt lv.spec.cur)
-    | none => bad
   | _ =>
     match st, parseOp l with
     | some lv, some (op, hint) =>
@@ -116,11 +119,11 @@ def step (st : DState) (l : Line) : DState × String :=
         match lv.model with
         | .error e => (.error e, e.fmt)
         | .ok x =>
-          match C09.step lv.kind lv.lt lv.cap x op with
-          | .ok (x', o) => (.ok x', fmtOut hint o ++ fmtSt x'.cur)
+          match C09.step lv.kind lv.lt (hetOf lv.lt) lv.cap x op with
+          | .ok (x', o) => (.ok x', fmtOut hint x'.cur.length o ++ fmtSt x'.cur)
           | .error e => (.error e, e.fmt)
-      let (s', o) := Spec.step isSet lv.lt lv.cap lv.spec op
-      (some { lv with model := m', spec := s' }, ms ++ "\t" ++ fmtOut hint o ++ fmtSt s'.cur)
+      let (s', o) := Spec.step isSet lv.lt (hetOf lv.lt) lv.cap lv.spec op
+      (some { lv with model := m', spec := s' }, ms ++ "\t" ++ fmtOut hint s'.cur.length o ++ fmtSt s'.cur)
     | _, _ => bad
 
 end Tetl.C09.Driver
